@@ -10,27 +10,39 @@
 (*            collections.deque, a dict keys view, "useq" (a registered    *)
 (*            Sequence with integer indices only), "legacy" (an object     *)
 (*            without __iter__, iterated through __getitem__), "bare" (an  *)
-(*            object with __iter__ only); see SliceFlow.tla                *)
+(*            object with __iter__ only); see SliceFlow.tla; "h..."        *)
+(*            iterators with an inexact length hint (the machines never    *)
+(*            ask for it; the same kinds are fed to RunningChunkBy)        *)
 (*   chunk    container of the windows: "tuple" (default), "tuple_it"      *)
 (*            (tuple, from_iterable=True), "list_it", "list_it1"           *)
 (*            (from_iterable=1), "set_it", "frozenset_it", "tuplesub_it"   *)
 (*            (a subclass of tuple from an iterable), "nt" (namedtuple,    *)
 (*            positional arguments), "fn_pos" / "fn_it" (user callables    *)
 (*            taking positional arguments / one iterable, which put the    *)
-(*            marker -1 in front of the window)                            *)
+(*            marker -1 in front of the window), "deque_it" / "bytearray_it" *)
+(*            (collections.deque / bytearray from an iterable: mutable      *)
+(*            containers; the deque is also the type of the element's own   *)
+(*            running buffer)                                               *)
 (*   chain    number and kind of the iterables: "0", "1list", "2list",     *)
-(*            "3list", "3tuple", "3range", "3gen", "3iter", "3mixed"       *)
+(*            "3list", "3tuple", "3range", "3gen", "3iter", "3mixed",      *)
+(*            "3hint" (iterators with a too small / too large / no hint)   *)
 (*   count    arguments given: "both", "kwboth", "start" (step defaults    *)
 (*            to 1), "kwstep" (start defaults to 0), "none"                *)
 (***************************************************************************)
 EXTENDS Integers, Sequences, TLC, Json
 
-CONSTANTS MaxN, MaxK
+CONSTANTS MaxN, MaxK,
+          ShareBuffer   \* FALSE: every result is a new object (the documented "constructor for new chunks");
+                        \* TRUE: sensitivity guard - a container of the buffer's own type is not converted, the
+                        \* live buffer itself is handed out (TLC must refute HeldFrozen)
 Starts == {-2, 0, 3}
 StepsC == {-1, 0, 1, 2}
-RevOpts == {"iter", "list", "tuple", "gen", "range", "deque", "keys", "useq", "legacy", "bare"}
-ChunkOpts == {"tuple", "tuple_it", "list_it", "list_it1", "set_it", "frozenset_it", "tuplesub_it", "nt", "fn_pos", "fn_it"}
-ChainOpts == {"0", "1list", "2list", "3list", "3tuple", "3range", "3gen", "3iter", "3mixed"}
+RevOpts == {"iter", "list", "tuple", "gen", "range", "deque", "keys", "useq", "legacy", "bare",
+            \* iterators whose length hint (PEP 424) is too small / too large / zero / NotImplemented / a TypeError
+            "hsmall", "hlarge", "hzero", "hnotimpl", "htypeerr"}
+ChunkOpts == {"tuple", "tuple_it", "list_it", "list_it1", "set_it", "frozenset_it", "tuplesub_it", "nt", "fn_pos", "fn_it", "deque_it", "bytearray_it"}
+MutableChunks == {"list_it", "list_it1", "set_it", "fn_pos", "fn_it", "deque_it", "bytearray_it"}
+ChainOpts == {"0", "1list", "2list", "3list", "3tuple", "3range", "3gen", "3iter", "3mixed", "3hint"}
 CountOpts == {"both", "kwboth", "start", "kwstep", "none"}
 
 RECURSIVE Iota(_)
@@ -45,8 +57,11 @@ VARIABLES kind,   \* "reverse" | "chunk" | "chain" | "count"
           p1, p2, \* parameters: chunk size / chain lengths / count start, step
           N,      \* input length (reverse, chunk) or number of values taken (count)
           opt,    \* construction / feeding variant (see above)
-          pos, buf, ph, out, pulls
-vars == <<kind, p1, p2, N, opt, pos, buf, ph, out, pulls>>
+          pos, buf, ph, out, pulls,
+          ids     \* results HELD by the consumer: the object yielded as out[j] is object ids[j]; object 0 is the
+                  \* element's own running buffer (whose content keeps changing), object k > 0 the k-th object
+                  \* made by the container constructor (its content is fixed when it is made)
+vars == <<kind, p1, p2, N, opt, pos, buf, ph, out, pulls, ids>>
 
 Arity == CASE opt = "0" -> 0 [] opt = "1list" -> 1 [] opt = "2list" -> 2 [] OTHER -> 3
 Init == /\ kind \in {"reverse", "chunk", "chain", "count"}
@@ -58,7 +73,7 @@ Init == /\ kind \in {"reverse", "chunk", "chain", "count"}
               /\ (Arity <= 2 => N = 0) /\ (Arity <= 1 => p2 = 0) /\ (Arity = 0 => p1 = 0)
            \/ /\ kind = "count" /\ p1 \in Starts /\ p2 \in StepsC /\ opt \in CountOpts
               /\ (opt \in {"start", "none"} => p2 = 1) /\ (opt \in {"kwstep", "none"} => p1 = 0)
-        /\ pos = 0 /\ buf = <<>> /\ ph = "run" /\ out = <<>> /\ pulls = <<>>
+        /\ pos = 0 /\ buf = <<>> /\ ph = "run" /\ out = <<>> /\ pulls = <<>> /\ ids = <<>>
 
 \* Reverse.run: list(flow), then pop() until empty
 RevCollect == /\ kind = "reverse" /\ ph = "run"
@@ -104,12 +119,14 @@ CountStep == /\ kind = "count" /\ ph = "run"
                 ELSE ph' = "done" /\ UNCHANGED <<out, buf, pos, pulls>>
 
 K == UNCHANGED <<kind, p1, p2, N, opt>>
-ARevCollect == RevCollect /\ K
-ARevPop == RevPop /\ K
-AChunkFill == ChunkFill /\ K
-AChunkSlide == ChunkSlide /\ K
-AChainStep == ChainStep /\ K
-ACountStep == CountStep /\ K
+\* the object handed out with a window: container(chunk) makes a new one
+NewObject == IF ShareBuffer /\ opt = "deque_it" THEN 0 ELSE Len(ids) + 1
+ARevCollect == RevCollect /\ K /\ UNCHANGED ids
+ARevPop == RevPop /\ K /\ UNCHANGED ids
+AChunkFill == ChunkFill /\ K /\ UNCHANGED ids
+AChunkSlide == ChunkSlide /\ K /\ ids' = IF Len(out') > Len(out) THEN Append(ids, NewObject) ELSE ids
+AChainStep == ChainStep /\ K /\ UNCHANGED ids
+ACountStep == CountStep /\ K /\ UNCHANGED ids
 Next == ARevCollect \/ ARevPop \/ AChunkFill \/ AChunkSlide \/ AChainStep \/ ACountStep
 Spec == Init /\ [][Next]_vars
 Done == ph = "done"
@@ -124,6 +141,17 @@ Ref == CASE kind = "reverse" -> Rev(Iota(N))
          [] kind = "chain" -> ChainRef(1)
          [] kind = "count" -> CountRef(p1, p2, N)
 EqRef == Done => out = Ref
+\* Results held by the consumer (list(run(flow)), comparing neighbouring windows, storing chunks): what the
+\* object yielded as the j-th result contains NOW - the live buffer shows its present content
+Held(j) == IF ids[j] = 0 THEN Wrap(buf) ELSE out[j]
+HeldNow == [j \in 1..Len(ids) |-> Held(j)]
+\* every result still is what it was when it was yielded, however far the run has continued
+HeldFrozen == kind = "chunk" => Len(ids) = Len(out) /\ \A j \in 1..Len(out) : Held(j) = out[j]
+HeldEqRef == (kind = "chunk" /\ Done) => HeldNow = Ref
+\* successive results are different objects, none of them the buffer (matters for mutable containers: the
+\* consumer may change a window it was given without changing the other windows or the rest of the run)
+Fresh == \A j \in 1..Len(ids) : ids[j] # 0 /\ \A k \in 1..Len(ids) : k # j => ids[k] # ids[j]
+FreshResults == kind = "chunk" => Fresh
 \* RunningChunkBy holds at most chunk_size values; the j-th window needs k + j - 1 input values (+1 look-ahead)
 Min2(x, y) == IF x < y THEN x ELSE y
 ChunkLazy == kind = "chunk" => /\ Len(buf) <= p1
@@ -138,5 +166,7 @@ CountDefaults == (kind = "count" /\ Done /\ N > 0) =>
 \* consumer stops taking values
 CountLinear == kind = "count" => \A j \in 1..Len(out) : out[j] = p1 + (j - 1) * p2
 CountNeverEndsByItself == (kind = "count" /\ ph = "done") => Len(out) = N
-Emitted == Done => PrintT(ToJson([kind |-> kind, p1 |-> p1, p2 |-> p2, n |-> N, opt |-> opt, out |-> out, pulls |-> pulls]))
+Emitted == Done => PrintT(ToJson([kind |-> kind, p1 |-> p1, p2 |-> p2, n |-> N, opt |-> opt, out |-> out, pulls |-> pulls,
+                                  held |-> IF kind = "chunk" THEN HeldNow ELSE <<>>,
+                                  fresh |-> (kind = "chunk" /\ Fresh), mutable |-> (opt \in MutableChunks)]))
 =============================================================================
